@@ -405,6 +405,18 @@ def guard_chain(pm, node, stop):
 
 
 
+def resolve_atoms(func_node, atoms):
+    """guard-chain atoms with named conditions opened: `worse = not (a < b); if worse: return ...` gives the atom (a < b, True) for what follows"""
+    out = []
+    for t, pol in atoms:
+        r = resolved(func_node, t) if isinstance(t, ast.Name) else t
+        if r is not t and isinstance(r, (ast.Compare, ast.BoolOp, ast.UnaryOp)):
+            out.extend(resolve_atoms(func_node, atomise(r, pol)))
+        else:
+            out.append((t, pol))
+    return out
+
+
 def deref_access_temps(func_node):
     """Normal form for rules that read array accesses: a deep copy of the function in which every local bound ONCE to a pure access expression
     (`t = A[i, K]`, `row = A[i]`, `n = obj.attr`) is replaced, in its later uses, by that expression — provided neither the array nor anything the
